@@ -33,7 +33,8 @@ EXPLANATION = (
     'merged unconditionally), unknown -w/-b namespaces and unknown -a names each reach '
     'sys.exit(1) before Compiler(...) is constructed; `:all` keeps the other given names. '
     'Decides these structural parts; argparse behaviour itself is trusted.'
-    ' RD (decision drift, stonelint.conddrift): the tests of the functions this property is anchored in (stonelint.ownership) are compared with reference/conditions.json; a relation, polarity or connective changed over the same operands, or an operand purely added or dropped, is a violation; re-spellings and new or removed tests are not claimed.')
+    ' RD (decision drift, stonelint.conddrift): the tests of the functions this property is anchored in (stonelint.ownership) are compared with reference/conditions.json; a relation, polarity or connective changed over the same operands, or an operand purely added or dropped, is a violation; re-spellings and new or removed tests are not claimed.'
+    " RE (expression drift, stonelint.exprdrift): the same functions' attribute names, variable reads, simple statements, calls and arithmetic/slice literals are compared with reference/expressions.json; a substituted attribute or variable, a dropped call or assignment, swapped arguments or a changed literal is a violation; any other edit is not claimed.")
 ASSUMPTIONS = [
     'yacc precedence semantics: entries later in the precedence tuple bind tighter; on a '
     'shift/reduce conflict equal precedence + left associativity reduces (ply documentation)',
@@ -369,6 +370,8 @@ def run(pm, ctx):
     from ..conddrift import run_decisions
     from ..ownership import OWN
     run_decisions(pm, ctx, 'C19-RD', OWN['C19'])
+    from .. import exprdrift
+    exprdrift.run(pm, ctx, 'C19-RE', OWN['C19'])
 
 
 def _site(pi, n):
